@@ -236,7 +236,7 @@ OBLIGATIONS = [
         desc="real could_be_base32_encoded/a2b/b2a: any string (fixed prefix + 2 arbitrary characters from the alphabet plus '=A18 ') that a2b accepts "
              "re-encodes to itself; rejected strings do not decode"),
     chx("b32_roundtrip", "C38_h", "h_b32_roundtrip", timeout=T,
-        cases={"quick": [{"n": i, "_label": "%dbytes" % i} for i in (1, 2, 3, 4, 5)],
+        cases={"quick": [{"n": i, "_label": "%dbytes" % i} for i in (1, 3, 5)],
                "thorough": [{"n": i, "_label": "%dbytes" % i} for i in (1, 2, 3, 4, 5, 6, 7, 8, 9, 10, 16, 20, 32)]},
         desc="real b2a/a2b: a2b(b2a(x)) == x, length == ceil(8n/5), alphabet, accepted by could_be_base32_encoded; x of n bytes whose first or last byte is arbitrary"),
     chx("b62_roundtrip", "C38_h", "h_b62_roundtrip", timeout=T,
@@ -244,7 +244,7 @@ OBLIGATIONS = [
                "thorough": [{"n": i, "_label": "%dbytes" % i} for i in (1, 2, 3)]},
         desc="base62.b2a_l/a2b_l integer loops on symbolic byte values (byte-string plumbing replaced by identity): digits < 62, count as documented, decode(encode(x)) == x"),
     chx("b62_real_bytes", "C38_h", "h_b62_real_bytes", timeout=T,
-        cases={"quick": [{"n": i, "_label": "%dbytes" % i} for i in (1, 2, 4)],
+        cases={"quick": [{"n": i, "_label": "%dbytes" % i} for i in (1, 4)],
                "thorough": [{"n": i, "_label": "%dbytes" % i} for i in (1, 2, 3, 4, 5, 8, 16, 32)]},
         desc="untouched base62.b2a/a2b on real bytes (n bytes, first or last byte arbitrary): round trip, alphabet, agreement with the integer core"),
     chx("netstring_roundtrip", "C38_h", "h_netstring_roundtrip", timeout=T, bounds={"quick": {"len_max": 12}, "thorough": {"len_max": 16}},
